@@ -94,7 +94,11 @@ package mcp
 //@   modifies reach(to)
 
 // decodeMetaValue reads m[key] and, where needed, re-decodes it into a fresh value: nothing visible changes.
-//@ func decodeMetaValue [C06]
+// (since seed C02-9) A member that is absent or JSON null is no value: reporting a null member as present would hand
+// validateRequestMeta a nil capabilities pointer, which it dereferences on the dispatcher goroutine - a peer-chosen
+// "clientCapabilities": null would crash the process instead of being answered -32602.
+//@ func decodeMetaValue [C06, C02]
+//@   ensures @a-null-or-absent-member-is-no-value !(key in m) || m[key] == nil ==> !result.1
 
 //@ pred preInitMethod(m string) := m == methodInitialize || m == methodPing || m == notificationInitialized || m == notificationCancelled
 //@ pred removedIn2026(m string) := m == methodInitialize || m == methodPing || m == notificationInitialized || m == notificationRootsListChanged
@@ -897,6 +901,91 @@ package mcp
 //@   trust-section (*Server).subscriptionsListen
 //@   invariant @tables-exist s.pendingNotifications != nil && s.toolChangeSubscriptions != nil && s.promptChangeSubscriptions != nil && s.resourceChangeSubscriptions != nil && s.resourceSubscriptions != nil
 
+// The client's record of its own resource subscriptions under 2026-07-28 (since seed C18-9): ClientSession.resourceSubs
+// maps a URI to the cancel function of the listen stream opened for it. Subscribe opens a listen exactly for a URI that
+// is not recorded and records it in the same critical section; Unsubscribe forgets the URI in the critical section in
+// which it takes the cancel function - an entry left behind would turn every later Subscribe for the URI into a silent
+// no-op while the server holds no subscription: updates are lost and a TTL-cached read is never invalidated.
+// usesNewProtocol only reads the session's negotiated state.
+//@ func (*ClientSession).usesNewProtocol [C18, C12]
+//@   pure
+//@ monitor rsmu lock ClientSession.resourceSubsMu as cs [C18]
+//@   protects fields(ClientSession.resourceSubs), maps("map[string]context.CancelFunc")
+//@ func (*ClientSession).Subscribe [C18]
+//@   track subscriptionsListen as listen
+//@   track usesNewProtocol as modern
+//@   requires cs != nil
+//@   modifies *
+//@   ghost uri := old(params.URI)
+//@   ensures @a-listen-is-opened-exactly-for-a-uri-not-yet-recorded callResult(modern, 1, 0) && params != nil && uri != "" ==> (calls(listen) == 1 <==> !at(locked, inDom(cs.resourceSubs, uri))) && calls(listen) <= 1
+//@   ensures @a-subscribed-uri-is-recorded callResult(modern, 1, 0) && params != nil && uri != "" ==> at(unlocked, inDom(cs.resourceSubs, uri)) && at(unlocked, cs.resourceSubs != nil)
+//@   assert at call subscriptionsListen: @the-listen-names-this-uri-only $2 != nil && $2.Notifications != nil && len($2.Notifications.ResourceSubscriptions) == 1 && $2.Notifications.ResourceSubscriptions[0] == uri
+//@   track context.Background as background
+//@   track context.WithCancel as derive
+//@   ensures @the-listen-outlives-the-callers-context calls(listen) == 1 ==> calls(background) == 1 && calls(derive) == 1 && callArg(derive, 1, 0) == callResult(background, 1, 0) && callArg(listen, 1, 1) == callResult(derive, 1, 0)
+//@   ensures @the-outcome-of-the-listen-is-reported calls(listen) == 1 ==> result == callResult(listen, 1, 0)
+//@ func (*ClientSession).Unsubscribe [C18]
+//@   track usesNewProtocol as modern
+//@   requires cs != nil
+//@   modifies *
+//@   ghost uri := old(params.URI)
+//@   ensures @an-unsubscribed-uri-is-forgotten callResult(modern, 1, 0) && params != nil && uri != "" ==> !at(unlocked, inDom(cs.resourceSubs, uri)) && result == nil
+//@   ensures @other-uris-stay-recorded forall u string :: {at(locked, inDom(cs.resourceSubs, u))} u != uri ==> (at(unlocked, inDom(cs.resourceSubs, u)) <==> at(locked, inDom(cs.resourceSubs, u)))
+//@ func (*ClientSession).cancelAllResourceSubscriptions [C18]
+//@   requires cs != nil
+//@   modifies *
+//@   ensures @nothing-stays-recorded at(unlocked, cs.resourceSubs) == nil
+
+// C10 (since seed C10-9): what a handler sends through its session travels with the context the handler passed in -
+// that context carries the id of the request being handled, which is what the streamable server routes by. An
+// SDK-internal call site that swaps the context (for a fresh background one, say) moves the message from the
+// request's exchange to the standalone stream.
+//@ func (*LoggingHandler).handle [C10]
+//@   track Log as send
+//@   requires h != nil
+//@   modifies *
+//@   ensures @a-record-is-sent-at-most-once calls(send) <= 1
+//@   assert at call Log: @a-record-travels-with-the-callers-context $1 == ctx && $0 == h.ss
+//@ func (*ServerSession).Log [C10]
+//@   track handleNotify as send
+//@   modifies *
+//@   ensures @sent-at-most-once calls(send) <= 1
+//@   assert at call handleNotify: @the-message-travels-with-the-callers-context $0 == ctx && $1 == notificationLoggingMessage
+//@ func (*ServerSession).NotifyProgress [C10]
+//@   track handleNotify as send
+//@   modifies *
+//@   ensures @sent-once calls(send) == 1 && result == callResult(send, 1, 0)
+//@   assert at call handleNotify: @the-message-travels-with-the-callers-context $0 == ctx && $1 == notificationProgress
+//@ func (*ServerSession).Ping [C10]
+//@   track handleSend as send
+//@   modifies *
+//@   assert at call handleSend: @the-message-travels-with-the-callers-context $0 == ctx && $1 == methodPing
+//@ func (*ServerSession).ListRoots [C10]
+//@   track handleSend as send
+//@   modifies *
+//@   assert at call handleSend: @the-message-travels-with-the-callers-context $0 == ctx && $1 == methodListRoots
+//@ func (*ServerSession).CreateMessage [C10]
+//@   track handleSend as send
+//@   modifies *
+//@   assert at call handleSend: @the-message-travels-with-the-callers-context $0 == ctx && $1 == methodCreateMessage
+//@ func (*ServerSession).CreateMessageWithTools [C10]
+//@   track handleSend as send
+//@   modifies *
+//@   assert at call handleSend: @the-message-travels-with-the-callers-context $0 == ctx && $1 == methodCreateMessage
+
+// Client.AddRoots / RemoveRoots (C03, sender side): once the method has returned, the roots-changed notifications have
+// been handed to every session's connection by this goroutine (the fan-out helper is called, not started), so a call
+// the same goroutine sends afterwards is observed by the peer after the notification.
+//@ func changeAndNotify [C03, C18]
+//@   track notifySessions as fanout
+//@   track change as apply
+//@   requires c != nil
+//@   callee change: modifies extern
+//@   modifies *
+//@   ensures @the-change-is-applied-once calls(apply) == 1
+//@   ensures @a-change-has-been-announced-when-the-method-returns callResult(apply, 1, 0) ==> calls(fanout) == 1 && callArg(fanout, 1, 1) == notification
+//@   ensures @nothing-is-announced-without-a-change !callResult(apply, 1, 0) ==> calls(fanout) == 0 || len(callArg(fanout, 1, 0)) == 0
+
 // The capability gate: a list-changed notification of a kind is sent iff the configured capabilities do not switch it
 // off (no capabilities configured means "on").
 //@ func (*Server).shouldSendListChangedNotification [C18]
@@ -927,7 +1016,7 @@ package mcp
 // notifySessions (the timer's function): the timer slot is cleared inside the critical section in which the
 // recipients are read, so a change that comes later finds no timer and schedules a new one; legacy sessions and the
 // subscribers of exactly this kind are notified, after the lock is released.
-//@ func (*Server).notifySessions [C18]
+//@ func (*Server).notifySessions [C18, C03]
 //@   track maps.Clone as clone
 //@   track notifySessions as notifyLegacy
 //@   track notifySubscribedSessions as notifySubscribed
@@ -978,7 +1067,7 @@ package mcp
 // under the lock.
 //@ func (*ServerSession).InitializeParams [C18]
 //@   pure
-//@ func (*Server).ResourceUpdated [C18]
+//@ func (*Server).ResourceUpdated [C18, C03]
 //@   track notifySessions as notifyLegacy
 //@   track notifySubscribedSessions as notifySubscribed
 //@   ghost subs := at(locked, s.resourceSubscriptions[params.URI])
@@ -1850,6 +1939,19 @@ package mcp
 //@   nopanic
 //@   requires r != nil   // encoding/json calls UnmarshalJSON on an allocated value
 //@   modifies *
+// (since seed C19-9) The single-block rendering of a sampling result (the pre-2025-11-25 wire form) is a field-by-field
+// copy: every member of the result - _meta included - is carried over, so encoding then decoding returns the value.
+//@ func (*CreateMessageWithToolsResult).MarshalJSON [C19]
+//@   track encoding/json.Marshal as enc
+//@   requires r != nil
+//@   modifies *
+//@   ghost one := old(len(r.Content)) == 1
+//@   ensures @encoded-exactly-once calls(enc) == 1 && result.0 == callResult(enc, 1, 0) && result.1 == callResult(enc, 1, 1)
+//@   assert at call encoding/json.Marshal: @a-single-block-is-rendered-as-a-plain-result-with-every-member len(r.Content) == 1 ==> typeIs($0, *CreateMessageResult) && $0.(*CreateMessageResult) != nil && $0.(*CreateMessageResult).Meta == r.Meta && $0.(*CreateMessageResult).Content == r.Content[0] && $0.(*CreateMessageResult).Model == r.Model && $0.(*CreateMessageResult).Role == r.Role && $0.(*CreateMessageResult).StopReason == r.StopReason
+//@ func (*CreateMessageResult).toWithTools [C19]
+//@   requires r != nil
+//@   ensures @every-member-is-carried-over result != nil && result.Meta == r.Meta && result.Model == r.Model && result.Role == r.Role && result.StopReason == r.StopReason
+//@   ensures @the-block-becomes-a-one-element-list (r.Content != nil ==> len(result.Content) == 1 && result.Content[0] == r.Content) && (r.Content == nil ==> len(result.Content) == 0)
 //@ func (*CreateMessageWithToolsResult).UnmarshalJSON [C19]
 //@   nopanic
 //@   requires r != nil   // encoding/json calls UnmarshalJSON on an allocated value
@@ -1972,7 +2074,7 @@ package mcp
 //@   ensures @other-sessions-are-left-alone forall o *ServerSession :: {inDom(s.toolChangeSubscriptions, o)} o != req.Session ==> at(unlocked, inDom(s.toolChangeSubscriptions, o)) == at(locked, inDom(s.toolChangeSubscriptions, o))
 // notifySubscribedSessions (2026-07-28 subscribers): one delivery attempt per subscriber, each stamped with that
 // subscriber's own listen-request id, all issued outside any request (background context, see notifySessions).
-//@ func (*Server).notifySubscribedSessions [C18, C10]
+//@ func (*Server).notifySubscribedSessions [C18, C10, C03]
 //@   track handleNotify as deliver
 //@   track context.Background as background
 //@   track context.WithTimeout as bound
@@ -2018,7 +2120,9 @@ package mcp
 //@   ensures @a-rejection-hands-back-no-params result.1 != nil ==> result.0 == nil
 // notifySessions (generic fan-out helper, C18): one delivery attempt per session, whatever the outcome of the
 // earlier ones - a failing or closing session does not starve the sessions after it.
-//@ func notifySessions [C18, C10]
+// (C03, since seed C03-9: the deliveries are made by the calling goroutine, before the helper returns - so whatever the
+// caller sends next is written after them; an attempt started with `go` is not counted as made.)
+//@ func notifySessions [C18, C10, C03]
 //@   track handleNotify as deliver
 //@   track context.Background as background
 //@   track context.WithTimeout as bound
@@ -2186,15 +2290,17 @@ package mcp
 // loggingConn serialises log lines only: it is never held while the wrapped connection writes (or reads) - a write
 // that blocks on a peer that stopped draining must not stop the connection's single reader, which takes the same
 // mutex to log every message it returns.
-//@ monitor logmu lock loggingConn.mu as s [C04]
+//@ monitor logmu lock loggingConn.mu as s [C04, C01]
 //@   protects fields(loggingConn.w)
-//@ func (*loggingConn).Write [C04]
+// (C01, since seed C01-9: the jsonrpc2 layer completes a call whose request could not be written only if the writer
+// reports the failure - the wrapped connection's error is the result, whatever the logging does.)
+//@ func (*loggingConn).Write [C04, C01]
 //@   requires s != nil
 //@   modifies *
 //@   track s.delegate.Write as forward
 //@   assert at call s.delegate.Write: @the-log-lock-is-not-held-across-the-write !held(logmu)
 //@   ensures @forwarded-exactly-once-and-its-error-returned calls(forward) == 1 && result == callResult(forward, 1, 0)
-//@ func (*loggingConn).Read [C04]
+//@ func (*loggingConn).Read [C04, C01]
 //@   requires s != nil
 //@   modifies *
 //@   track s.delegate.Read as forward
